@@ -23,6 +23,24 @@ CHECKS = {
               "MockProver on every run)."),
         technique="TLA+/TLC model checking of FiatShamir + trace validation of recorded prover/verifier transcripts",
     ),
+    "C02": dict(
+        category="model_checking",
+        text=("ConstraintSystem!Satisfied (gates on every usable row, lookup membership, copy equalities, "
+              "selector-gated additive constraints) is the definition; Arguments.tla shows by exhaustive TLC search "
+              "over all small instances that the permutation, lookup and trash arguments the verifier checks are "
+              "equivalent to the corresponding clauses. Against the code: for TLC-enumerated shapes the harness "
+              "extracts the REAL constraint system and tables (expression trees, lookups, trash arguments, copy "
+              "partition) and, for every fault {+1, 0, +3} of every assigned advice cell, faults on unused cells and "
+              "on every instance cell (injected by a hook-free wrapper floor planner identically into MockProver and "
+              "the real prover), records MockProver::verify and real create_proof+verify; TLC recomputes Satisfied "
+              "from the extracted system for each faulted assignment and a line is consumed only if BOTH verdicts "
+              "equal it (so unused-cell faults must be accepted and every isolated class violation rejected)."),
+        design_ref="DESIGN.md 4/C02",
+        note=("Single-phase shapes with small values so exact integer semantics equals field semantics; lookup "
+              "product rules cannot be violated in isolation through an honest prover (prover refusal counts as "
+              "reject); gates judged on usable rows."),
+        technique="TLA+/TLC: exhaustive equivalence of arguments and meaning + extracted constraint systems judged by TLC in trace validation",
+    ),
     "C03": dict(
         category="fault_enumeration",
         text=("FiatShamir is model-checked with one adversarial edit between proving and verifying (any proof "
